@@ -13,19 +13,55 @@ let parse_action toks = match toks with
   | ["xe"; e] -> ADestroyE (n (int_of_string e))
   | _ -> failwith ("bad action: " ^ String.concat " " toks)
 
-type cfg = { ne : int; nl : int; nsg : int; maxd : int; tbl : (int * int, action list) Hashtbl.t }
+(* a script entry: guard (0 = at every invocation, k = at the k-th invocation of that slot in the case; plus = and later) *)
+type entry = { g : int; plus : bool; a : action }
+type cfg = { ne : int; nl : int; nsg : int; maxd : int; tbl : (int * int, entry list) Hashtbl.t;
+             seen : (int * int, int) Hashtbl.t;        (* invocations of each slot in the earlier top-level operations of the case *)
+             picks : int list }                        (* reference object only: choices among identical connections, see pick_of *)
 
-(* configuration: ne nl nsg maxd [a<digits>]; the fifth token (arity of each signal index) only concerns the
-   harness: neither the model nor the reference object looks at the arguments of a signal *)
-let cfg_of toks = match toks with
+(* configuration: ne nl nsg maxd, then tokens recognised by their first letter.  `a<digits>` (arity of each signal index),
+   `k<digits>` / `j<digits>` (kinds of the listener / emitter objects) only concern the harness: neither the model nor the
+   reference object looks at the arguments of a signal or at the layout of the client's classes.  `p<digits>`: which of
+   several identical connections the reference object's disconnect cancels, one digit per AMBIGUOUS disconnect in the
+   order they are executed (0 = oldest, clamped to the newest; 0 when the digits are used up). *)
+let cfg_of toks =
+  let picks = List.concat (List.map (fun t ->
+    if String.length t > 1 && t.[0] = 'p' then List.init (String.length t - 1) (fun k -> Char.code t.[k + 1] - 48) else []) toks) in
+  match toks with
   | ne :: nl :: nsg :: maxd :: _ ->
-      { ne = int_of_string ne; nl = int_of_string nl; nsg = int_of_string nsg; maxd = int_of_string maxd; tbl = Hashtbl.create 16 }
-  | _ -> { ne = 2; nl = 2; nsg = 1; maxd = 3; tbl = Hashtbl.create 16 }
+      { ne = int_of_string ne; nl = int_of_string nl; nsg = int_of_string nsg; maxd = int_of_string maxd;
+        tbl = Hashtbl.create 16; seen = Hashtbl.create 16; picks }
+  | _ -> { ne = 2; nl = 2; nsg = 1; maxd = 3; tbl = Hashtbl.create 16; seen = Hashtbl.create 16; picks }
 
-let sc cfg : scripts = fun l s -> try Hashtbl.find cfg.tbl (i l, i s) with Not_found -> []
-let add_def cfg l s a =
+(* the slot is a program with memory: what it does depends on how often it has been invoked (the log of the operation in
+   progress, whose head is the invocation being served, plus the earlier operations of the case) *)
+let sc cfg : scripts = fun lg l s ->
+  let l = i l and s = i s in
+  let here = List.length (List.filter (fun v -> i v.i_l = l && i v.i_s = s) lg) in
+  let nth = here + (try Hashtbl.find cfg.seen (l, s) with Not_found -> 0) in
+  let es = try Hashtbl.find cfg.tbl (l, s) with Not_found -> [] in
+  List.map (fun e -> e.a) (List.filter (fun e -> e.g = 0 || nth = e.g || (e.plus && nth > e.g)) es)
+let remember cfg lg =
+  List.iter (fun v -> let k = (i v.i_l, i v.i_s) in
+              Hashtbl.replace cfg.seen k (1 + (try Hashtbl.find cfg.seen k with Not_found -> 0))) lg
+let add_def cfg l s toks =
+  let (g, plus, rest) = match toks with
+    | t :: rest when String.length t > 1 && t.[0] = '@' ->
+        let plus = t.[String.length t - 1] = '+' in
+        let num = String.sub t 1 (String.length t - 1 - (if plus then 1 else 0)) in
+        (max 1 (int_of_string num), plus, rest)
+    | _ -> (0, false, toks) in
   let old = try Hashtbl.find cfg.tbl (l, s) with Not_found -> [] in
-  Hashtbl.replace cfg.tbl (l, s) (old @ [a])
+  Hashtbl.replace cfg.tbl (l, s) (old @ [{ g; plus; a = parse_action rest }])
+
+(* the reference object's policy for identical connections, fed from a list of choices; `asked` receives the number of
+   candidates of the first ambiguous disconnect met after the list was used up *)
+let pick_of (choices : int list ref) (asked : int option ref) : picker = fun st e sg l s ->
+  let m = List.length (List.filter (fun c -> c.c_e = e && c.c_sg = sg && c.c_l = l && c.c_s = s) st.sp_conns) in
+  if m < 2 then O else
+  match !choices with
+  | k :: r -> choices := r; n k
+  | [] -> (if !asked = None then asked := Some m); O
 
 let fuel = nat_of_int 100000
 let nslots = 4
@@ -98,17 +134,40 @@ let spec_pub cfg st =
     Printf.sprintf "L%d[%s]" l (String.concat "," (List.map (fun (e, sg, s) -> Printf.sprintf "%d.%d.%d" e sg s) ents))) (range cfg.nl) in
   String.concat " " (es @ ls)
 
+let is_def toks = match toks with "def" :: _ -> true | _ -> false
+let do_def cfg toks = match toks with
+  | "def" :: l :: s :: a -> add_def cfg (int_of_string l) (int_of_string s) a
+  | _ -> failwith "def"
+
+(* one case of the reference object under a given list of choices -> its lines, and the width of the first open choice *)
+let spec_case cfg_toks ops choices =
+  let cfg = cfg_of cfg_toks in
+  let ch = ref choices and asked = ref None in
+  let pick = pick_of ch asked in
+  let lines = ref [] in
+  let st = ref (Some (sp_init (n cfg.ne) (n cfg.nl) (n cfg.nsg))) in
+  List.iter (fun toks ->
+    match !st with
+    | None -> ()
+    | Some p ->
+      if is_def toks then (do_def cfg toks; lines := "def" :: !lines) else
+      (match spec_step pick (sc cfg) (n cfg.maxd) fuel p (parse_action toks) with
+       | Done (p', lg) -> remember cfg lg; lines := Printf.sprintf "%s | %s" (log_str lg) (spec_pub cfg p') :: !lines; st := Some p'
+       | OutOfFuel _ -> lines := "! fuel" :: !lines; st := None
+       | Fail _ -> lines := "! uaf" :: !lines; st := None)) ops;
+  (List.rev !lines, !asked)
+
 let () =
   let mode = Sys.argv.(1) and file = Sys.argv.(2) in
   if mode = "model" then
     run_cases file (fun toks -> let cfg = cfg_of toks in (cfg, Some (init (n cfg.ne) (n cfg.nl) (n cfg.nsg))))
       (fun (cfg, sto) _ toks ->
-         match sto, toks with
-         | None, _ -> (cfg, None)
-         | Some st, "def" :: l :: s :: a -> add_def cfg (int_of_string l) (int_of_string s) (parse_action a); emit "def"; (cfg, Some st)
-         | Some st, _ ->
+         match sto with
+         | None -> (cfg, None)
+         | Some st when is_def toks -> do_def cfg toks; emit "def"; (cfg, Some st)
+         | Some st ->
            (match step_tr (sc cfg) (n cfg.maxd) fuel st (parse_action toks) with
-            | Done ((st', lg), tr) -> emit (Printf.sprintf "%s | %s | %s | %s" (log_str lg) (model_pub cfg st') (model_int cfg st') (trace_str tr)); (cfg, Some st')
+            | Done ((st', lg), tr) -> remember cfg lg; emit (Printf.sprintf "%s | %s | %s | %s" (log_str lg) (model_pub cfg st') (model_int cfg st') (trace_str tr)); (cfg, Some st')
             | OutOfFuel _ -> emit "! fuel"; (cfg, None)
             | Fail _ -> emit "! uaf"; (cfg, None)))
       (fun _ -> ())
@@ -118,24 +177,38 @@ let () =
     let cnt = ref 0 in
     run_cases file (fun toks -> cnt := 0; let cfg = cfg_of toks in (cfg, Some (sp_init (n cfg.ne) (n cfg.nl) (n cfg.nsg))))
       (fun (cfg, sto) _ toks ->
-         match sto, toks with
-         | None, _ -> (cfg, None)
-         | Some st, "def" :: l :: s :: a -> add_def cfg (int_of_string l) (int_of_string s) (parse_action a); (cfg, Some st)
-         | Some st, _ ->
-           let sc' l s = incr cnt; if !cnt > cap then raise Exit else sc cfg l s in
-           (match (try spec_step sc' (n cfg.maxd) fuel st (parse_action toks) with Exit -> OutOfFuel []) with
-            | Done (st', _) -> (cfg, Some st')
+         match sto with
+         | None -> (cfg, None)
+         | Some st when is_def toks -> do_def cfg toks; (cfg, Some st)
+         | Some st ->
+           let sc' lg l s = incr cnt; if !cnt > cap then raise Exit else sc cfg lg l s in
+           (match (try spec_step oldest sc' (n cfg.maxd) fuel st (parse_action toks) with Exit -> OutOfFuel []) with
+            | Done (st', lg) -> remember cfg lg; (cfg, Some st')
             | _ -> (cfg, None)))
       (fun (_, sto) -> emit (match sto with Some _ -> "ok" | None -> "big"))
+  else if mode = "specall" then
+    (* every behaviour the reference object allows: the tree of choices among identical connections is explored
+       completely (up to `cap` runs); leaf number j is printed as lines `~j <line>`, `~cap` when the tree was cut *)
+    let cap = 96 in
+    run_cases file (fun toks -> (toks, ref []))
+      (fun (cfgt, ops) _ toks -> ops := toks :: !ops; (cfgt, ops))
+      (fun (cfgt, ops) ->
+         let ops = List.rev !ops in
+         let runs = ref 0 and leaf = ref 0 and cut = ref false in
+         let rec explore choices =
+           if !runs >= cap then cut := true else begin
+             incr runs;
+             let (lines, asked) = spec_case cfgt ops choices in
+             match asked with
+             | None -> List.iter (fun l -> emit (Printf.sprintf "~%d %s" !leaf l)) lines; incr leaf
+             | Some m -> for k = 0 to m - 1 do explore (choices @ [k]) done
+           end in
+         explore (cfg_of cfgt).picks;
+         if !cut then emit "~cap")
   else
-    run_cases file (fun toks -> let cfg = cfg_of toks in (cfg, Some (sp_init (n cfg.ne) (n cfg.nl) (n cfg.nsg))))
-      (fun (cfg, sto) _ toks ->
-         match sto, toks with
-         | None, _ -> (cfg, None)
-         | Some st, "def" :: l :: s :: a -> add_def cfg (int_of_string l) (int_of_string s) (parse_action a); emit "def"; (cfg, Some st)
-         | Some st, _ ->
-           (match spec_step (sc cfg) (n cfg.maxd) fuel st (parse_action toks) with
-            | Done (st', lg) -> emit (Printf.sprintf "%s | %s" (log_str lg) (spec_pub cfg st')); (cfg, Some st')
-            | OutOfFuel _ -> emit "! fuel"; (cfg, None)
-            | Fail _ -> emit "! uaf"; (cfg, None)))
-      (fun _ -> ())
+    (* the reference object under the policy of the configuration (`p<digits>`; the oldest when absent) *)
+    run_cases file (fun toks -> (toks, ref []))
+      (fun (cfgt, ops) _ toks -> ops := toks :: !ops; (cfgt, ops))
+      (fun (cfgt, ops) ->
+         let (lines, _) = spec_case cfgt (List.rev !ops) (cfg_of cfgt).picks in
+         List.iter emit lines)
